@@ -884,11 +884,17 @@ class Evaluator(object):
         if unit_ok and obt[0] == 'call' and obt[1] == 'Ok' and len(obt[2]) == 1 and obt[2][0] in (('unit',), ('tup', ())) and subject is not sc:
             # match r { Ok(()) => Ok(()), Err(e) => Err(g(e)) }   ==   r.map_err(g)
             return subject
-        if obt == payload_ok and node['sp'] in getattr(self, 'tail_sps', ()):
-            # in tail position: match r { Ok(v) => v, Err(e) => Err(g(e)) }   ==   r.map_err(g)?   (v is itself the result)
+        if node['sp'] in getattr(self, 'tail_sps', ()) and obt[0] != 'ctl':
+            # in tail position: match r { Ok(v) => E(v), Err(e) => Err(g(e)) }   ==   { let v = r.map_err(g)?; E(v) }
             t = ('try', subject)
-            self.emit('try', t, node, guards, fn, chain)
-            return t
+            ev_ = Event(idx=o0, kind='try', term=t, node=node, guards=tuple(guards), fn=fn, chain=tuple(chain), sp=node.get('sp'))
+            pos = min(o0, e0)
+            self.events.insert(pos, ev_)
+            for i, x in enumerate(self.events):
+                x.idx = i
+            if obt == payload_ok:
+                return t
+            return replace(obt, payload_ok, t)
         # match r { Ok(v) => Ok(f(v)), Err(e) => Err(e) }   ==   r.map(|v| f(v))  (canonical: Ok(f(r?)))
         if obt[0] == 'call' and obt[1] == 'Ok' and len(obt[2]) == 1:
             t = ('try', subject)
